@@ -864,6 +864,12 @@ impl Prop for C15OffBook {
 pub struct SuppliedCase {
     pub fen: String,
     pub sels: Vec<u16>,
+    /// half-move clock of the supplied position (draw-by-clock states still have legal moves)
+    #[serde(default)]
+    pub half: u8,
+    /// shuffle pieces out and back through the Game API first so the position has occurred three times
+    #[serde(default)]
+    pub shuffle: bool,
 }
 
 pub struct C15Supplied;
@@ -888,19 +894,73 @@ impl Prop for C15Supplied {
                 }),
             ],
             prop::collection::vec(any::<u16>(), 0..4),
+            prop_oneof![5 => Just(0u8), 1 => 96u8..104, 1 => 100u8..=149],
+            prop::bool::weighted(0.2),
         )
-            .prop_map(|(fen, sels)| SuppliedCase { fen, sels })
+            .prop_map(|(fen, sels, half, shuffle)| SuppliedCase { fen, sels, half, shuffle })
             .boxed()
     }
     fn cases(&self, tier: Tier) -> u32 {
         tier.pick(240, 6_000)
     }
     fn test(&self, c: &SuppliedCase, st: &mut Stats) -> TestResult {
+        let mut shuffle_moves: Vec<Mv> = Vec::new();
         let mut pos = Pos::from_fen(&c.fen).map_err(Failure::new)?;
-        pos.half = 0;
+        pos.half = c.half as u32;
         let mut game = Game::from_board(to_board(&pos), 1);
         let book = Book::default();
         let root_children = book_children(&book, &[]);
+        if c.half >= 100 {
+            st.label("clock>=100-with-moves");
+        }
+        if c.shuffle {
+            // out and back twice: the starting position occurs for the third time
+            let mut ok = true;
+            for _round in 0..2 {
+                for step in 0..4 {
+                    let legal = pos.legal_moves();
+                    let quiet = |m: &&Mv| m.cap.is_none() && m.kind == Kind::Std && pos.sq[m.from as usize].map(|x| x.0) != Some(P::Pawn) && pos.sq[m.from as usize].map(|x| x.0) != Some(P::King) && pos.sq[m.from as usize].map(|x| x.0) != Some(P::Rook);
+                    let m = if step < 2 {
+                        legal.iter().find(quiet).cloned()
+                    } else {
+                        None
+                    };
+                    let m = match (step, m) {
+                        (0, Some(m)) | (1, Some(m)) => {
+                            shuffle_moves.push(m);
+                            m
+                        }
+                        (2, _) | (3, _) => {
+                            let back = shuffle_moves[step - 2];
+                            match legal.iter().find(|x| x.from == back.to && x.to == back.from && x.cap.is_none()) {
+                                Some(x) => *x,
+                                None => {
+                                    ok = false;
+                                    break;
+                                }
+                            }
+                        }
+                        _ => {
+                            ok = false;
+                            break;
+                        }
+                    };
+                    if game.apply_chess_move_by_from_to_coordinates(bb(m.from), bb(m.to)).is_err() {
+                        ok = false;
+                        break;
+                    }
+                    game.board_mut().toggle_turn();
+                    pos = pos.make(&m);
+                }
+                shuffle_moves.clear();
+                if !ok {
+                    break;
+                }
+            }
+            if ok {
+                st.label("third-occurrence-with-moves");
+            }
+        }
         let legal = pos.legal_moves();
         let some_book_move_illegal = root_children.iter().any(|(f, t)| !legal.iter().any(|m| m.from == *f && m.to == *t));
         if some_book_move_illegal {
